@@ -911,6 +911,40 @@ func calciumGlue(t *testing.T) result {
 	return res
 }
 
+// tickerPeriod measures helium's push period on an otherwise idle instance:
+// the spacing of three consecutive tick deliveries to a reading subscriber.
+// It guards the calibration above against a systematic deviation: runs whose
+// two calibration ticks are not one interval apart are dropped as "machine
+// too loaded", which would hide an implementation whose period is wrong.
+func tickerPeriod() (d1, d2 time.Duration, ok bool) {
+	root, cancel := context.WithCancel(context.Background())
+	defer cancel()
+	stub := &stubStore{ch: make(chan []string)}
+	h := helium.New(root, types.GRPCConfig{ServiceDiscoveryPushInterval: interval}, stub)
+	_, ch := h.Subscribe(root)
+	var ts []time.Time
+	deadline := time.After(5*interval + 2*time.Second)
+	for len(ts) < 3 {
+		select {
+		case <-ch:
+			ts = append(ts, time.Now())
+		case <-deadline:
+			return 0, 0, false
+		}
+	}
+	return ts[1].Sub(ts[0]), ts[2].Sub(ts[1]), true
+}
+
+func periodOff(d time.Duration) int {
+	switch {
+	case d > interval+interval/4:
+		return 1
+	case d < interval-interval/4:
+		return -1
+	}
+	return 0
+}
+
 func TestC27(t *testing.T) {
 	r := vh.New(t, "C27", "helium")
 	r.Coq("From Verif Require Import Discovery.Helium.", "Helium.case", "Helium.agree", "Helium.ok")
@@ -935,6 +969,25 @@ func TestC27(t *testing.T) {
 
 	rawCli := embedded.NewCluster(t, "/cw").RandClient() // the (namespaced) client of the one embedded cluster
 	os.Args = args0
+
+	// the period probe runs alongside the scripts
+	probeDone := make(chan string, 1)
+	go func() {
+		verdict := ""
+		for attempt := 0; attempt < 2; attempt++ {
+			d1, d2, ok := tickerPeriod()
+			switch {
+			case !ok:
+				verdict = "no-ticks"
+			case periodOff(d1) != 0 && periodOff(d1) == periodOff(d2):
+				verdict = fmt.Sprintf("period-off:%dms,%dms", d1.Milliseconds(), d2.Milliseconds())
+			default:
+				probeDone <- ""
+				return
+			}
+		}
+		probeDone <- verdict // the same deviation twice in a row
+	}()
 
 	results := make([]result, len(scripts))
 	var wg sync.WaitGroup
@@ -1023,6 +1076,19 @@ func TestC27(t *testing.T) {
 	}
 
 	results = append(results, glue)
+	if v := <-probeDone; v != "" {
+		// a subscriber reading all the time did not get its pushes one interval apart:
+		// reported as the observation "nothing received across a tick" of a one-subscriber script
+		r.Count("ticker_probe=" + v)
+		acts := []action{set(1), sub(true), wait}
+		results = append(results, result{
+			Script: script{Name: "ticker-period-probe:" + v, Acts: acts},
+			Slots:  []slotObs{{Act: acts[0], Got: [][][]int{}}, {Act: acts[1], Got: [][][]int{{}}}, {Act: acts[2], Got: [][][]int{{}}}},
+			Keys:   []int{0}, FinClosed: []bool{false}, FinUnsub: []bool{},
+		})
+	} else {
+		r.Count("ticker_probe=ok")
+	}
 	dropped := 0
 	for _, res := range results {
 		if res.Err != "" {
